@@ -19,8 +19,9 @@ MANIFEST = {
              "full observation vector of every live map, and the Lean judge obsOk is evaluated on the implementation's "
              "observations."),
     "note": ("Trusted: Lean kernel + propext/Classical.choice/Quot.sound; CPython dict semantics modelled as an association "
-             "list; ASCII keys only; object aliasing (replace(other) sharing by design) is not in the value-level model, "
-             "independence of copies is therefore carried by the correspondence runs, not by a theorem; correspondence is sampled (exhaustive to a small depth over a reduced alphabet)."),
+             "list; ASCII keys only; object identity (replace(other) shares both dicts by design) is handled by the driver "
+             "(variables are handles to model objects), the theorems are about operation sequences on objects; that copies and "
+             "combinations are fresh objects is observed by the correspondence runs; correspondence is sampled (exhaustive to a small depth over a reduced alphabet)."),
     "technique": "Lean 4 proof (simulation by induction over operation sequences) + model/implementation correspondence",
 }
 RULE = ("operation sequences over 4 registers of header maps: every constructor form (dict, kwargs, dict+kwargs, "
@@ -32,7 +33,7 @@ EXHAUSTIVE = {"quick": False, "thorough": False}
 ASSUMPTIONS = [
     "keys are ASCII (Python str.lower on non-ASCII is outside the model)",
     "lowerstr keys are already lower-case (the type(k) is lowerstr shortcut is then unobservable)",
-    "replace(other_header_map) shares the other map's dicts by design; the harness passes a private copy, so sharing is not exercised",
+    "replace(other_header_map) shares the other map's dicts by design; the driver models that sharing by object identity (variables are handles to objects)",
 ]
 TRUSTED = ["C16: CPython dict semantics ({**a, **b}, insertion order, del) are modelled by PyDict (assoc list)"]
 
@@ -40,13 +41,21 @@ KEYS = ["Key", "KEY", "key", "kEy", "other", "Other", "_x", "ab"]
 PROBES = ["Key", "KEY", "key", "kEy", "other", "OTHER", "_x", "ab", "zz"]
 
 
+def fv(v) -> str:
+    """values are ints or None (token N)"""
+    return "N" if v is None else str(v)
+
+
 def fmt_pairs(pairs) -> str:
-    return ",".join(f"{k}={v}" for k, v in pairs) if pairs else "~"
+    return ",".join(f"{k}={fv(v)}" for k, v in pairs) if pairs else "~"
 
 
 def o_pairs(items) -> str:
     items = list(items)
-    return ",".join(f"{k}:{v}" for k, v in items) if items else "~"
+    return ",".join(f"{k}:{fv(v)}" for k, v in items) if items else "~"
+
+
+_ABSENT = object()
 
 
 def observe(d, probes) -> str:
@@ -54,13 +63,13 @@ def observe(d, probes) -> str:
     gets = []
     for k in probes:
         try:
-            gets.append(f"{k}:{d[k]}")
+            gets.append(f"{k}:{fv(d[k])}")
         except KeyError:
             gets.append(f"{k}:!")
     getl = []
     for lk in lows:
-        v = d.get_lower(lk)
-        getl.append(f"{lk}:{'!' if v is None else v}")
+        v = d.get_lower(lk, _ABSENT)  # a default that cannot be a stored value: None is a legal value
+        getl.append(f"{lk}:{'!' if v is _ABSENT else fv(v)}")
     mem = [f"{k}:{'T' if k in d else 'F'}" for k in probes]
     it = list(d)
     return (f"len={len(d)} iter={','.join(it) if it else '~'} get={','.join(gets)} getl={','.join(getl)} "
@@ -129,7 +138,7 @@ def run_recipe(ctx: Ctx, recipe: Dict[str, Any], cid: str) -> Case:
                 if r not in regs:
                     continue
                 touch([k])
-                line = f"set {r} {k} {v}"
+                line = f"set {r} {k} {fv(v)}"
                 regs[r][k] = v
             elif name == "del":
                 _, r, k = op
@@ -176,7 +185,7 @@ def run_recipe(ctx: Ctx, recipe: Dict[str, Any], cid: str) -> Case:
                 if r not in regs or a not in regs:
                     continue
                 line = f"replci {r} {a}"
-                regs[r].replace(regs[a].copy())
+                regs[r].replace(regs[a])  # shares a's dicts by design: the driver models the sharing
             elif name == "eq":
                 _, a, b = op
                 if a not in regs or b not in regs:
@@ -220,7 +229,7 @@ CTOR_SEEDS = [
 ]
 
 EXH_OPS = [
-    ["set", 0, "Key", 1], ["set", 0, "KEY", 2], ["set", 0, "other", 3], ["set", 0, "key", 1],
+    ["set", 0, "Key", 1], ["set", 0, "KEY", 2], ["set", 0, "other", None], ["set", 0, "key", 1],
     ["del", 0, "kEy"], ["del", 0, "OTHER"], ["dell", 0, "key"],
     ["copy", 1, 0], ["set", 1, "kEy", 9], ["del", 1, "key"],
     ["combine", 2, 0, 1], ["combine", 0, 1, 0], ["combl", 2, 0, [["key", 5], ["zz", 6]]],
@@ -229,8 +238,12 @@ EXH_OPS = [
 ]
 
 
+def rand_val(rng):
+    return None if rng.random() < 0.12 else rng.randrange(0, 4)
+
+
 def rand_pairs(rng, n):
-    return [[rng.choice(KEYS), rng.randrange(0, 4)] for _ in range(n)]
+    return [[rng.choice(KEYS), rand_val(rng)] for _ in range(n)]
 
 
 def rand_op(rng):
@@ -240,7 +253,7 @@ def rand_op(rng):
     k = rng.choice(KEYS + ["zz"])
     c = rng.randrange(0, 16)
     if c < 4:
-        return ["set", r, k, rng.randrange(0, 4)]
+        return ["set", r, k, rand_val(rng)]
     if c < 6:
         return ["del", r, k]
     if c == 6:
@@ -288,6 +301,9 @@ def generate(ctx: Ctx) -> List[Case]:
 
 
 CORPUS = [
+    {"ops": [["new", 0, "dict", [["Key", None]]]]},                                  # a stored None is present (in / len / iteration)
+    {"ops": [["new", 0, "dict", [["a", 1]]], ["new", 1, "dict", [["b", 2]]], ["replci", 0, 1], ["set", 1, "New", 3], ["del", 0, "b"], ["set", 0, "B", 4]]},  # sharing after replace(other)
+    {"ops": [["new", 0, "dict", [["a", 1]]], ["new", 1, "dict", [["b", 2]]], ["replci", 0, 1], ["repl", 1, [["c", 5]]], ["set", 0, "x", 1]]},  # sharing ends when the other is rebound
     {"ops": [["new", 0, "dict", [["Key", 1], ["KEY", 2]]]]},                       # F16a
     {"ops": [["new", 0, "kwargs", [["Key", 1], ["KEY", 2]]]]},                     # F16a (kwargs)
     {"ops": [["new", 0, "dict", [["Key", 1]]], ["new", 1, "dict", [["KEY", 2]]], ["combine", 2, 0, 1]]},  # F16a (combine)
